@@ -1,4 +1,5 @@
 import RSocketModel.Props.C09
+import RSocketModel.Engine.WireLegal
 /-!
 # C08 — Frames emitted are legal RSocket for the emitter's role  (**partial**)
 
@@ -21,43 +22,7 @@ SETUP-first-and-once is C16's theorem on the client model.
 -/
 namespace RSocketModel.Engine
 
-/-- reachable-state invariant: the id counter stays in range with the endpoint's parity, and
-every stream / channel requester object carries a positive initial request-n -/
-structure Inv08 (st : State) : Prop where
-  cur_lt : st.cur < 2 ^ 31
-  cur_par : st.cur % 2 = st.first % 2
-  n0 : ∀ oid s, st.obj oid = some s → N0ok s
-
-theorem inv08_init (first : Nat) (hf : 1 ≤ first) (lp : Bool) : Inv08 (init first lp) :=
-  ⟨StreamId.initCur_lt 31 first, StreamId.initCur_parity (by omega) first hf, by
-    intro oid s hs; simp [State.obj, init] at hs⟩
-
-theorem inv08_ext (st st' : State) (he : Ext st st') (h : Inv08 st) : Inv08 st' := by
-  refine ⟨he.curlt h.cur_lt, by rw [he.curpar h.cur_lt, he.first]; exact h.cur_par, ?_⟩
-  intro oid s' hs'
-  cases ho : st.obj oid with
-  | none => exact he.fresh oid s' hs' ho
-  | some s =>
-    obtain ⟨s2, hs2, hm⟩ := he.objs oid s ho
-    rw [hs'] at hs2; cases hs2
-    exact n0ok_mono hm (h.n0 oid s ho)
-
-theorem inv08_run (evs : List Ev) : ∀ st, Inv08 st → Inv08 (run st evs).1 := by
-  induction evs with
-  | nil => intro st h; exact h
-  | cons e es ih => intro st h; simp only [run]; exact ih _ (inv08_ext st _ (ext_step st e) h)
-
 /-! ### opening a stream -/
-
-theorem allocate_sound (st : State) (h : Inv08 st) (sid : Nat) (st1 : State) (ha : allocate st = (some sid, st1)) :
-    sid ≠ 0 ∧ sid % 2 = st.first % 2 ∧ st.isActive sid = false ∧ sid < 2 ^ 31 := by
-  simp only [allocate] at ha
-  rcases hal : StreamId.alloc 31 st.isActive st.cur with ⟨o, c⟩
-  rw [hal] at ha
-  simp only [Prod.mk.injEq] at ha
-  obtain ⟨rfl, _⟩ := ha
-  obtain ⟨h1, h2, h3, h4, _⟩ := StreamId.c13_alloc_sound 31 (by omega) st.isActive st.cur sid c h.cur_lt hal
-  exact ⟨h1, by rw [h2]; exact h.cur_par, h3, h4⟩
 
 /-- the request methods: the only frame queued is the request frame, on a fresh non-zero stream
 id of the endpoint's own parity (or nothing is queued and the caller gets an exception) -/
@@ -129,130 +94,6 @@ theorem c08_opens_with_request_own_parity (st : State) (h : Inv08 st) (hc : st.c
           refine ⟨rfl, (key sid st1 hal rfl).1, (key sid st1 hal rfl).2.1, (key sid st1 hal rfl).2.2, ?_⟩
           cases p <;> simp_all [List.filter]
         · simp at hg
-
-/-! ### what is emitted: a predicate on every queued frame -/
-
-/-- `p` holds of every frame in an output list -/
-def Out.sendAll (p : Frame → Bool) : Out → Bool
-  | .send g => p g
-  | _ => true
-
-theorem sendAll_mem (p : Frame → Bool) (l : List Out) (h : ∀ x ∈ l, x.sendAll p = true) (g : Frame) (hg : Out.send g ∈ l) :
-    p g = true := h _ hg
-
-def isConnectionLevel : FType → Bool
-  | .setup | .lease | .keepalive | .metadataPush | .resume | .resumeOk => true
-  | _ => false
-
-/-- the two legality predicates that hold of every frame the engine ever queues -/
-def pN (g : Frame) : Bool := !(g.ty == .requestStream || g.ty == .requestChannel) || decide (0 < g.n)
-def pZero (g : Frame) : Bool := !isConnectionLevel g.ty || g.sid == 0
-def pRecvTypes (g : Frame) : Bool := g.ty == .error || g.ty == .keepalive || g == mkPayload g.sid [] true
-
-theorem frameReceived_preds (st : State) (oid : Nat) (s : Stream) (f : Frame) :
-    ∀ x ∈ (frameReceived st oid s f).2, x.sendAll pN = true ∧ x.sendAll pZero = true ∧ x.sendAll pRecvTypes = true := by
-  unfold frameReceived
-  cases s.kind <;> simp only <;> cases f.ty <;> simp only <;> (repeat' split) <;>
-    simp [mkError, Out.sendAll, pN, pZero, pRecvTypes, isConnectionLevel]
-
-theorem handleByType_preds (st : State) (f : Frame) (b : Behaviour) (hd : f.sid = 0 ∨ isInitiate f.ty = true) :
-    ∀ x ∈ (handleByType st f b).2, x.sendAll pN = true ∧ x.sendAll pZero = true ∧ x.sendAll pRecvTypes = true := by
-  unfold handleByType
-  cases hty : f.ty <;> simp only
-  case requestResponse =>
-    split <;> (try cases b) <;> (try simp only) <;> (repeat' split) <;>
-      simp [mkError, Out.sendAll, pN, pZero, pRecvTypes, isConnectionLevel]
-  case requestStream =>
-    split <;> (try cases b) <;> (try simp only) <;> (repeat' split) <;>
-      simp [mkError, Out.sendAll, pN, pZero, pRecvTypes, isConnectionLevel]
-  case requestFnf => split <;> (try cases b) <;> simp [mkError, Out.sendAll, pN, pZero, pRecvTypes, isConnectionLevel]
-  case requestChannel =>
-    split
-    · simp [mkError, Out.sendAll, pN, pZero, pRecvTypes, isConnectionLevel]
-    · cases b with
-      | channel hasPub hasSub =>
-        simp only
-        split
-        · simp [mkError, Out.sendAll, pN, pZero, pRecvTypes, isConnectionLevel]
-        · cases hasPub <;> cases hasSub <;> cases f.complete <;>
-            simp [mkPayload, Out.sendAll, pN, pZero, pRecvTypes, isConnectionLevel]
-      | _ => simp [mkError, Out.sendAll, pN, pZero, pRecvTypes, isConnectionLevel]
-  case setup => (repeat' split) <;> simp [mkError, Out.sendAll, pN, pZero, pRecvTypes, isConnectionLevel]
-  case metadataPush => cases b <;> simp [mkError, Out.sendAll, pN, pZero, pRecvTypes, isConnectionLevel]
-  case keepalive =>
-    have h0 : f.sid = 0 := by rcases hd with h | h; exact h; simp [hty, isInitiate] at h
-    split <;> simp [Out.sendAll, pN, pZero, pRecvTypes, isConnectionLevel, hty, h0]
-  all_goals simp [mkError, Out.sendAll, pN, pZero, pRecvTypes, isConnectionLevel]
-
-theorem recvStep_preds (st : State) (h : WF st) (f : Frame) (b : Behaviour) :
-    ∀ x ∈ (recvStep st f b).2, x.sendAll pN = true ∧ x.sendAll pZero = true ∧ x.sendAll pRecvTypes = true := by
-  unfold recvStep
-  split
-  · simp
-  · generalize (if isFragmentable f.ty = true then cacheAppend st f else (st, some (Except.ok f))) = r
-    rcases r with ⟨st', c⟩
-    simp only
-    split
-    · simp
-    · simp [mkError, Out.sendAll, pN, pZero, pRecvTypes, isConnectionLevel]
-    · split
-      · rename_i hd
-        exact handleByType_preds st' _ b (by simpa using hd)
-      · split
-        · simp [Out.sendAll]
-        · split
-          · simp [Out.sendAll]
-          · exact frameReceived_preds st' _ _ _
-
-theorem apiStep_preds (st : State) (h : Inv08 st) (ev : Ev) :
-    ∀ x ∈ (apiStep st ev).2, x.sendAll pN = true ∧ x.sendAll pZero = true := by
-  cases ev <;> simp only [apiStep]
-  case requestResponse data => rcases allocate st with ⟨o, st1⟩; cases o <;> simp [Out.sendAll, pN, pZero, isConnectionLevel]
-  case fireAndForget data => rcases allocate st with ⟨o, st1⟩; cases o <;> simp [Out.sendAll, pN, pZero, isConnectionLevel]
-  case requestStream data n sub =>
-    rcases allocate st with ⟨o, st1⟩
-    cases o <;> simp only <;> (repeat' split) <;> simp [Out.sendAll, pN, pZero, isConnectionLevel] <;> omega
-  case requestChannel data n hp sub =>
-    rcases allocate st with ⟨o, st1⟩
-    cases o <;> simp only <;> (repeat' split) <;> simp [Out.sendAll, pN, pZero, isConnectionLevel] <;> (try omega)
-    all_goals (cases hp <;> simp [Out.sendAll, pN, pZero, isConnectionLevel] <;> omega)
-  case subscribe oid =>
-    split
-    · rename_i s ho
-      have hn := h.n0 oid s ho
-      split
-      · simp
-      · split
-        · rename_i hk
-          simp [Out.sendAll, pN, pZero, isConnectionLevel]
-          exact hn (Or.inl hk)
-        · rename_i hk
-          have := hn (Or.inr hk)
-          cases s.pubGiven <;> simp [Out.sendAll, pN, pZero, isConnectionLevel] <;> exact this
-        · simp
-    · simp
-  all_goals ((repeat' split) <;> simp [Out.sendAll, pN, pZero, isConnectionLevel, mkRequestN, mkPayload, mkError, mkCancel])
-
-/-- every frame queued by any entry point, in any reachable state, satisfies `p` -/
-theorem step_preds (st : State) (hw : WF st) (h : Inv08 st) (ev : Ev) :
-    ∀ x ∈ (step st ev).2, x.sendAll pN = true ∧ x.sendAll pZero = true := by
-  intro x hx
-  have hx := mem_emit _ _ _ hx
-  cases ev with
-  | recv f b => exact ⟨(recvStep_preds st hw f b x hx).1, (recvStep_preds st hw f b x hx).2.1⟩
-  | lost =>
-    simp only [lostStep] at hx
-    split at hx
-    · simp at hx
-    · simp only [List.mem_append, List.mem_singleton] at hx
-      rcases hx with hx | rfl
-      · have := stopAll_targets st.table st x hx
-        cases x <;> simp [Out.target] at this <;> simp [Out.sendAll]
-      · simp [Out.sendAll]
-  | stopStreams =>
-    have := stopAll_targets st.table st x hx
-    cases x <;> simp [Out.target] at this <;> simp [Out.sendAll]
-  | _ => exact apiStep_preds st h _ x hx
 
 /-- **stream and channel requests carry a positive initial request-n** — every such frame ever
 queued, over every run from the initial state of either role -/
